@@ -137,6 +137,17 @@ claim('C03', 'DESIGN.md 4/C03',
       'Two site types; densities, omegas and potential parameters seeded; unconverged solves skipped; MSA/MS unflagged on divergent '
       'potentials excluded as documented.')
 
+claim('C12', 'DESIGN.md 4/C12',
+      'TLA+ spec OmegaSource.tla (source described relative to the Domain: origin x length relation x k relation on both sides of the '
+      'allclose boundary; stages constructed -> calculate -> createPRISM -> first cost, MutateCaller interleaved; nondeterministic '
+      'where the statement leaves the rejection stage open) model-checked with TLC (NeverFromMismatch, RejectStage, '
+      'MatchedNeverRejected, VerbatimOnMatch); every action sequence replayed on real FromArray/FromFile objects, files and Systems '
+      'with the projected stage selecting the successor; FromArray/FromFile.calculate events of the repository tests and a driver '
+      'validated against Trace_OmegaSource.tla',
+      'Exhaustive over source descriptions x Domain configurations x rank x action orders at the specification level; each replayed '
+      'on the real classes (bitwise verbatim comparison, leak detection through re-run histories), plus trace validation.',
+      'Bounded: 12 grid points, one concretisation per description and seed (3 in thorough); exception class not judged.')
+
 ALL = ['C%02d' % i for i in range(1, 19)]
 
 
